@@ -226,7 +226,13 @@ class Check:
             m = re.match(r"DIFF (\d+) (.*)", ln)
             if m: res["diffs"].append((int(m.group(1)), m.group(2)[:1500])); continue
             m = re.match(r"MONITOR (\d+) (\S+) (.*)", ln)
-            if m: res["monitors"].append((int(m.group(1)), m.group(2), m.group(3)[:1500])); continue
+            if m:
+                # monitors that state ANOTHER property (shared drivers) are recorded, never reported under this id
+                if m.group(2) in self.cfg.get("foreign_monitors", []):
+                    res.setdefault("foreign", []).append((int(m.group(1)), m.group(2)))
+                else:
+                    res["monitors"].append((int(m.group(1)), m.group(2), m.group(3)[:1500]))
+                continue
             m = re.match(r"ERROR (\d+) (.*)", ln)
             if m: res["errors"].append((int(m.group(1)), m.group(2)[:500])); continue
             m = re.match(r"SUMMARY (.*)", ln)
